@@ -26,6 +26,14 @@ CHECKS = {
    text='Coq theorems (Properties_C10.v): limb-wise and_n/andn_n/ior_n/iorn_n/nand_n/nior_n/xor_n/xnor_n equal Z.land/Z.lor/Z.lxor (and complements) of the values for every length; popcount/hamdist count set bits; scan0/scan1 return the least matching bit at or above the start or the largest bit count exactly when none exists; mpz_and/ior/xor/com built from |x|-1, limb-wise op, +1 equal Z.land/Z.lor/Z.lxor/Z.lnot on signed values for all four sign combinations and all lengths, results well-formed; mpz_tstbit transcribed from tstbit.c equals Z.testbit; setbit/clrbit/combit equal Z.setbit/Z.clearbit/xor 2^k; mpz_popcount/hamdist incl. the "infinite" answers. Correspondence on 46 000 cases aimed at negative operands with low/interior zero limbs, -1, -2^k, complement blocks, bit indices below/at/above the length.',
    note='mpz logical functions are modelled through the identities the C code uses, not each in-place loop; scan/popcount/hamdist at value level. Tied by execution. Trusted: Coq kernel, extraction, drivers, generators.',
    design='6/C10'),
+ 'C11': dict(
+   text='Coq theorems (Properties_C11.v): mpz_cmp as coded (sizes, then limbs from the top) is the sign of the exact difference; integer, rational (positive denominators) and double comparisons form one consistent total order (antisymmetry, transitivity, equality iff equal/canonical-equal); doubles are their exact dyadic values: mpz_cmp_d/cmpabs_d compare exactly, infinities lie beyond every integer, NaN is the Invalid tag; fits_* are true exactly on the representable range and get_ui/get_si/get_sx are exact there; mpz_set_d truncates toward zero; mpz_get_d yields the finite double with a full 53-bit significand that truncates |z| toward zero (never rounds up), exact for at most 53 significant bits, infinity of the right sign from 2^1024 on. Correspondence on 20 000 cases at every C type boundary +-1, 2^k+-1 up to k=1100, >53-bit values whose dropped bits straddle one half, every class of double (zero, subnormal, 2^53 neighbourhood, huge exponents, infinities, NaN) given as bit patterns.',
+   note='mpz_get_d_2exp, mpq_get_d and the subnormal/underflow branch of mpn_get_d are modelled and tied by execution but have no theorem yet; mpf comparisons belong to C13. NaN/Inf traps observed as SIGFPE. Trusted: Coq kernel, extraction, drivers, generators.',
+   design='6/C11'),
+ 'C12': dict(
+   text='Coq theorems (Properties_C12.v): for canonical inputs mpq_add/sub (Henrici with both gcd branches), mul (cross-gcd cancellation and the squaring shortcut), div, inv, neg, abs, mul_2exp, div_2exp return exactly the mathematical result (cross-multiplied equality) in canonical form (denominator positive, gcd 1, zero as 0/1); division/inversion by zero is the DivByZero tag; mpq_canonicalize canonicalises any pair with non-zero denominator without changing its value and is the identity on canonical input; set_z, set_d (every finite double, exact dyadic), set_f are exact and canonical. Correspondence on 67 000 cases built from chosen factor sets so that each gcd in each branch is trivial / non-trivial / equal to an operand, all alias patterns, shift counts across limb boundaries. This check found the in-place mpq_mul_2exp/mpq_div_2exp corruption (fixed in /repo 6f382e3).',
+   note='The model uses Z.gcd and exact division where the library calls mpz_gcd/mpz_divexact_gcd (those are C07/C02). Tied by execution. Trusted: Coq kernel, extraction, drivers, generators.',
+   design='6/C12'),
 }
 
 NA_REASON = 'check not built yet in this round (work in progress; the design in DESIGN.md section 6 claims it as applicable)'
